@@ -48,8 +48,8 @@ type callRes struct {
 
 type world struct {
 	stores []*metastore.NodeStore
-	c     *metastore.Cluster
-	calls []callRes
+	c      *metastore.Cluster
+	calls  []callRes
 }
 
 func mk(c Case) (sched.Scenario, *world) {
